@@ -245,6 +245,20 @@ def sp_reach_trans(interp, st, args, kwargs, node):
     )
 
 
+def sp_reach_common(interp, st, args, kwargs, node):
+    """LEMMA (symmetry + transitivity): two cells reachable from a common cell are reachable from each other."""
+    LEMMAS_USED.add("reach_common: cells reachable from one cell are mutually reachable (undirected edges, transitivity)")
+    m, c = args
+    u0, u1, v0, v1 = [z3.Int(V.fresh_name(n)) for n in ("u0", "u1", "v0", "v1")]
+    return z3.ForAll(
+        [u0, u1, v0, v1],
+        z3.Implies(z3.And(reach(st, m, c, (u0, u1)), reach(st, m, c, (v0, v1))), reach(st, m, (u0, u1), (v0, v1))),
+        # triggered by the conclusion: asking whether u reaches v brings up "is u (is v) reachable from c", which in turn triggers the
+        # facts stated from c (e.g. "every cell is reachable from the start cell")
+        patterns=[reach(st, m, (u0, u1), (v0, v1))],
+    )
+
+
 def sp_reach_sym(interp, st, args, kwargs, node):
     """LEMMA: the lattice graph is undirected, so reach is symmetric."""
     LEMMAS_USED.add("reach_sym: edges are undirected, hence reach is symmetric")
@@ -665,6 +679,7 @@ SPEC_FUNCTIONS = {
     "reach_induction": sp_reach_induction,
     "reach_mono": sp_reach_mono,
     "reach_sym": sp_reach_sym,
+    "reach_common": sp_reach_common,
     "reach_trans": sp_reach_trans,
     "forall": sp_forall,
     "exists": sp_exists,
